@@ -101,7 +101,7 @@ def _one(args):
         for i in range(0, len(obls), 6):
             chunk = obls[i:i + 6]
             results = SV.solve_all(chunk, budget, jobs=3)
-            bad = [(o.name, r["result"]) for o, r in zip(chunk, results) if r["result"] != "unsat"]
+            bad = [(o.name if not o.parts else o.name + " (one of its clauses)", r["result"]) for o, r in zip(chunk, results) if r["result"] != "unsat"]
             if bad:
                 break
         if bad:
@@ -118,9 +118,9 @@ def run_mutants(spec, engines, tier, budget, seed):
     from .run import spec_path
     jobs = []
     srcs = {}
-    per_target_cap = 10 if tier == "quick" else 10 ** 6
     for e in engines:
         t = e.target
+        per_target_cap = t.quick_mutants if tier == "quick" else 10 ** 6
         if t.skip_mutants:
             continue
         lo = hi = None
@@ -136,7 +136,7 @@ def run_mutants(spec, engines, tier, budget, seed):
             jobs.append((spec_path(spec.prop), spec.prop, t.ref, mid, desc, min(budget, 5)))
     if not jobs:
         return None
-    ctx = mp.get_context("fork")
+    ctx = mp.get_context("spawn")   # not fork: the parent has used threads (solver pool)
     with ctx.Pool(min(8, len(jobs))) as pool:
         res = pool.map(_one, jobs, chunksize=1)
     eq = {}
